@@ -1588,6 +1588,8 @@ class ktensor:
         [[5. 6.]
          [7. 8.]]
         """
+        if mode not in range(self.ndims):
+            assert False, "mode must be in [0, ndims)"
         for r in range(self.ncomponents):
             self.factor_matrices[mode][:, [r]] = (
                 self.factor_matrices[mode][:, [r]] * self.weights[r]
